@@ -296,10 +296,10 @@ def main(mod):
         nonlocal printed
         name = "%s-%s-%s.json" % (r.get("cls", "x"), r.get("idx", "x"), hashlib.sha1(json.dumps(r.get("case"), default=str, sort_keys=True).encode()).hexdigest()[:10])
         path = os.path.join(VERIF, "replays", pid, name.replace("/", "_"))
-        with open(path, "w") as f:
-            json.dump({"property": pid, "cls": r.get("cls"), "case": r.get("case"), "what": r.get("what"),
-                       "witness": r.get("witness"), "seed": args.seed, "tier": args.tier}, f, indent=1, default=str)
         if printed < 25:
+            with open(path, "w") as f:
+                json.dump({"property": pid, "cls": r.get("cls"), "case": r.get("case"), "what": r.get("what"),
+                           "witness": r.get("witness"), "seed": args.seed, "tier": args.tier}, f, indent=1, default=str)
             print("VIOLATION property=%s replay=%s" % (pid, path))
             print("  " + str(r.get("what"))[:400])
             printed += 1
